@@ -61,9 +61,9 @@ const MASTER: PortId = PortId { clock: [0x0a; 8], port: 1 };
 const BASE: f64 = 1.0e15;   // f64 resolves 0.125 ns at this magnitude // true time origin (ns)
 
 #[derive(Clone, Copy, PartialEq, PartialOrd)]
-enum Ev { SyncSend, SyncArrive(u16, f64), FupArrive(u16, f64), DreqTimer, DreqArrive(u16, f64), DrespArrive(u16, f64), Announce, Bmca, FilterTimer, RcptTimer }
+enum Ev { SyncSend, SyncArrive(u16, f64), FupArrive(u16, f64), DreqTimer, DreqArrive(u16, f64), DrespArrive(u16, f64), TxTs(usize), Announce, Bmca, FilterTimer, RcptTimer }
 
-pub struct Params { pub offset_s: f64, pub err_ppm: f64, pub delay_us: f64, pub jitter_us: f64, pub log_sync: i8, pub two_step: bool, pub duration_s: f64, pub seed: u64 }
+pub struct Params { pub offset_s: f64, pub err_ppm: f64, pub delay_us: f64, pub jitter_us: f64, pub log_sync: i8, pub two_step: bool, pub late_ts: bool, pub duration_s: f64, pub seed: u64 }
 
 fn run(p: &Params, out: &mut dyn FnMut(Value)) -> Result<(), String> {
     let cfg = InstanceConfig { clock_identity: ClockIdentity([5; 8]), priority_1: 200, priority_2: 200, domain_number: 0, sdo_id: SdoId::try_from(0).unwrap(), slave_only: false, path_trace: false, clock_quality: ClockQuality::default() };
@@ -86,6 +86,7 @@ fn run(p: &Params, out: &mut dyn FnMut(Value)) -> Result<(), String> {
     let mut ann_seq = 0u16;
     let mut sync_seq = 0u16;
     let mut pending_ctx: Vec<(TimestampContext, u16)> = vec![];
+    let mut late: Vec<Option<(TimestampContext, Time)>> = vec![];
     let end = BASE + p.duration_s * 1e9;
     // handle actions helper (as a macro-like closure is awkward with borrows, inline below)
     macro_rules! handle { ($acts:expr, $t:expr) => {{
@@ -161,11 +162,18 @@ fn run(p: &Params, out: &mut dyn FnMut(Value)) -> Result<(), String> {
                         let txl = to_time(osc.borrow().local(t));
                         pending_ctx.push((ctx, fr.hdr.seq));
                         let (c, seq) = pending_ctx.pop().unwrap();
-                        let s = handle!(port.handle_send_timestamp(c, txl), t); drop(s);
+                        if p.late_ts {
+                            // the stack learns the transmit timestamp only after the Delay_Resp has been handled (short link, slow timestamp retrieval)
+                            late.push(Some((c, txl)));
+                            q.push((t + 2.0 * delay + 2.0 * p.jitter_us * 1e3 + 40e3, Ev::TxTs(late.len() - 1)));
+                        } else {
+                            let s = handle!(port.handle_send_timestamp(c, txl), t); drop(s);
+                        }
                         q.push((t + delay + jit(&mut r), Ev::DreqArrive(seq, 0.0)));
                     }
                 }
             }
+            Ev::TxTs(i) => { if let Some((c, txl)) = late[i].take() { let s = handle!(port.handle_send_timestamp(c, txl), t); drop(s); } }
             Ev::DreqArrive(seq, _) => { q.push((t + delay + jit(&mut r) + 20e3, Ev::DrespArrive(seq, t))); }
             Ev::DrespArrive(seq, t4) => {
                 let h = Hdr::new(wire::T_DELAY_RESP, MASTER, seq);
@@ -225,7 +233,8 @@ fn main() {
         // quick tiers sample the grid; the corners are always in
         let c = if k < 4 { [(10.0, 150.0, 400.0, 20.0, 1i8, true), (-10.0, -150.0, 1.0, 0.0, -3i8, false), (1.001e-3, 150.0, 100.0, 1.0, 0i8, true), (0.0, -150.0, 400.0, 20.0, -3i8, false)][k] } else { cells[(x % cells.len() as u64) as usize] };
         let tconv = 1200.0f64.max(600.0 * 2f64.powi(c.4 as i32));
-        let p = Params { offset_s: c.0, err_ppm: c.1, delay_us: c.2, jitter_us: c.3, log_sync: c.4, two_step: c.5, duration_s: tconv + 200.0, seed: x };
+        let late_ts = if k < 4 { k % 2 == 1 } else { (x >> 17) & 1 == 1 };
+        let p = Params { offset_s: c.0, err_ppm: c.1, delay_us: c.2, jitter_us: c.3, log_sync: c.4, two_step: c.5, late_ts, duration_s: tconv + 200.0, seed: x };
         if !trace.is_empty() && (chunk_file.is_none() || in_chunk > 12000) {
             if let Some(mut f) = chunk_file.take() { f.flush().unwrap(); }
             chunk_file = Some(std::io::BufWriter::new(std::fs::File::create(format!("{}.{}.ndjson", trace, chunks)).unwrap()));
@@ -244,7 +253,7 @@ fn main() {
         let res = std::panic::catch_unwind(std::panic::AssertUnwindSafe(|| run(&p, &mut emit)));
         drop(emit);
         chunk_file = f;
-        let row = json!({"offset_s": c.0, "err_ppm": c.1, "delay_us": c.2, "jitter_us": c.3, "log_sync": c.4, "two_step": c.5, "tconv_s": tconv, "bound_ns": bound, "tail_max_ns": tail_max, "last_above_bound_s": last_bad, "steps_after_tconv": steps_after});
+        let row = json!({"offset_s": c.0, "err_ppm": c.1, "delay_us": c.2, "jitter_us": c.3, "log_sync": c.4, "two_step": c.5, "late_ts": late_ts, "tconv_s": tconv, "bound_ns": bound, "tail_max_ns": tail_max, "last_above_bound_s": last_bad, "steps_after_tconv": steps_after});
         match res { Ok(Ok(())) => {}, Ok(Err(e)) => failures.push(json!({"cell": row, "error": e})), Err(_) => failures.push(json!({"cell": row, "error": "panic"})) }
         summary.push(row);
     }
